@@ -318,4 +318,89 @@ Definition package_contract (bd : bundle) (pkg : str) (D : list dfile) : Prop :=
   forall f, In (BJ f) bd -> j5s_pkg f = pkg ->
     exists df, In df D /\ main_file_ok f df.
 
+(* ------------------------------------------------------------------ the sub-package files, linked *)
+(* The services of a source file go to <dir>/service/<base>.p.j5s.proto in the package
+   <pkg>.service, the topics to <dir>/topic/... in <pkg>.topic.  After the link step the request
+   / response / message types of a method are named with the sub-package. *)
+Definition elem_services (e : element) : list service := match e with EService s => [s] | _ => [] end.
+Definition elem_topics (e : element) : list topic := match e with ETopic t => [t] | _ => [] end.
+Definition file_services (f : jfile) : list service := flat_map elem_services (jf_elements f).
+Definition file_topics (f : jfile) : list topic := flat_map elem_topics (jf_elements f).
+
+Inductive zip3 {A B C} (R : A -> B -> C -> Prop) : list A -> list B -> list C -> Prop :=
+| z3_nil : zip3 R [] [] []
+| z3_cons : forall a c d la lc ld, R a c d -> zip3 R la lc ld -> zip3 R (a :: la) (c :: lc) (d :: ld).
+
+Definition in_pkg (spkg n : str) : str := dot ++ spkg ++ dot ++ n.
+
+Definition method_linked_ok (spkg : str) (base : option str) (m : method) (dm : dmethod) : Prop :=
+  me_name dm = m_name m /\
+  me_in dm = in_pkg spkg (m_name m ++ b "Request") /\
+  me_out dm = (match m_response m with
+               | Some _ => in_pkg spkg (m_name m ++ b "Response")
+               | None => b ".google.api.HttpBody"
+               end) /\
+  exists h, me_http dm = Some h /\ h_verb h = m_verb m /\ h_path h = declared_path base m /\
+            h_body h = (match m_verb m with VGet => [] | _ => [42] end).
+
+(* one service: <Name>Service with one rpc per method, and the request / response messages of
+   its methods, in order *)
+Definition service_linked_ok (spkg : str) (s : service) (ms : list dmsg) (ds : dservice) : Prop :=
+  ds_name ds = sv_name s ++ b "Service" /\ ds_topic ds = None /\
+  Forall2 (method_linked_ok spkg (sv_base s)) (sv_methods s) (ds_methods ds) /\
+  exists mss, ms = concat mss /\ Forall2 method_msgs_ok (sv_methods s) mss.
+
+Definition service_file_ok (f : jfile) (df : dfile) : Prop :=
+  let spkg := j5s_pkg f ++ dot ++ b "service" in
+  fl_path df = sub_proto_path f (b "service") /\ fl_pkg df = spkg /\ fl_enums df = [] /\
+  exists mss, fl_msgs df = concat mss /\ zip3 (service_linked_ok spkg) (file_services f) mss (fl_svcs df).
+
+Definition topic_method_linked_ok (spkg tname : str) (t : tmsg) (dm : dmethod) : Prop :=
+  me_name dm = tmsg_name tname t /\ me_in dm = in_pkg spkg (tmsg_name tname t ++ b "Message") /\
+  me_out dm = b ".google.protobuf.Empty" /\ me_http dm = None.
+
+Definition topic_service_linked_ok (spkg tname topic_name : str) (rl : role) (virt : props) (l : list tmsg)
+           (ms : list dmsg) (ds : dservice) : Prop :=
+  ds_name ds = camel tname ++ b "Topic" /\ ds_topic ds = Some (topic_name, rl) /\
+  Forall2 (topic_method_linked_ok spkg tname) l (ds_methods ds) /\
+  Forall2 (fun t m => virtual_ok (tmsg_name tname t ++ b "Message") virt (tm_fields t) m) l ms.
+
+(* one topic: one <Topic>Topic service (two for a request / reply topic) and its messages *)
+Definition topic_linked_ok (spkg : str) (t : topic) (ms : list dmsg) (ss : list dservice) : Prop :=
+  match t with
+  | TPublish name msgs =>
+      exists ds, ss = [ds] /\ topic_service_linked_ok spkg name (snake name) RPublish PNil msgs ms ds
+  | TReqRes name req reply =>
+      exists ds1 ds2 ms1 ms2, ss = [ds1; ds2] /\ ms = ms1 ++ ms2 /\
+        topic_service_linked_ok spkg (name ++ b "Request") (snake name) RRequest virt_request req ms1 ds1 /\
+        topic_service_linked_ok spkg (name ++ b "Reply") (snake name) RReply virt_request reply ms2 ds2
+  | TUpsert name entity msg =>
+      exists ds, ss = [ds] /\
+        topic_service_linked_ok spkg name (snake name) (RUpsert entity) virt_upsert
+          [match tm_name msg with None => mkTmsg (Some name) (tm_fields msg) | Some _ => msg end] ms ds
+  | TEvent name entity msg =>
+      exists ds, ss = [ds] /\ topic_service_linked_ok spkg name (snake name) (REvent entity) PNil [msg] ms ds
+  end.
+
+Definition topic_file_ok (f : jfile) (df : dfile) : Prop :=
+  let spkg := j5s_pkg f ++ dot ++ b "topic" in
+  fl_path df = sub_proto_path f (b "topic") /\ fl_pkg df = spkg /\ fl_enums df = [] /\
+  exists mss sss, fl_msgs df = concat mss /\ fl_svcs df = concat sss /\
+                  zip3 (topic_linked_ok spkg) (file_topics f) mss sss.
+
+(* every output file is one of these, for a source file of the package *)
+Definition output_of (f : jfile) (df : dfile) : Prop :=
+  fl_path df = main_proto_path f \/
+  (fl_path df = sub_proto_path f (b "service") /\ file_services f <> []) \/
+  (fl_path df = sub_proto_path f (b "topic") /\ file_topics f <> []).
+
+(* the whole output of a package: per source file the main file, the .service file exactly when
+   it declares services, the .topic file exactly when it declares topics - and nothing else *)
+Definition package_contract_full (bd : bundle) (pkg : str) (D : list dfile) : Prop :=
+  (forall f, In (BJ f) bd -> j5s_pkg f = pkg ->
+     (exists df, In df D /\ main_file_ok f df) /\
+     (file_services f <> [] -> exists df, In df D /\ service_file_ok f df) /\
+     (file_topics f <> [] -> exists df, In df D /\ topic_file_ok f df)) /\
+  (forall df, In df D -> exists f, In (BJ f) bd /\ j5s_pkg f = pkg /\ output_of f df).
+
 End Contract.
